@@ -27,6 +27,7 @@ func init() {
 
 func runC14(c *Ctx) {
 	c.rule("O1", "retry.Do is always bounded (Attempts) and context-bound (Context from a context parameter); RetryIf also passes RetryIf(cond) and LastErrorOnly(true), bounds attempts by RetryMax, runs fn once when disabled and converts context errors", 5)
+	c.rule("O12", "the function RetryIf hands to retry.Do returns the operation's own error unchanged: the caller's retry condition is asked about the error the attempt produced", 1)
 	c.rule("O6", "every attempt tests the context before it calls the operation (retry-go only looks at the context while it waits between attempts)", 1)
 	c.rule("O7", "a value of a header is only taken from the list the header map holds where that list was found non-empty (or through Header.Get)", 1)
 	c.rule("O8", "the Retry-After header is looked at only on paths where the status code was found equal to 429 or to 503 (equality tests only, both codes present): an ordering test would let other statuses through", 1)
@@ -145,6 +146,48 @@ func (c *Ctx) c14RetryDo() {
 	// to test the context itself before it calls the operation.
 	c.check(gated, "O6", fname(f)+"/attempt-gated", c.ipos(do), "the function retried tests the context before every call of the operation",
 		"the operation is handed to retry.Do as it is: retry-go looks at the context only while waiting between attempts, so with no wait (RetryWaitMin 0, no back-off) the operation is attempted again after the context is done about every other time")
+	// O12: "not attempted again … after an error that is not retriable": what is retriable is the caller's to say, about the
+	// error the attempt returned. The function handed to retry.Do returns the operation's own error: converted, wrapped or
+	// relabelled on the way, the caller's condition is asked about another error than the one its operation produced (an
+	// operation that fails with its own context.DeadlineExceeded, which the caller declared final, is retried as 'timeout').
+	if mc, ok := stripConv(resolveValue(do.Call.Args[0])).(*ssa.MakeClosure); ok {
+		if lit, ok := mc.Fn.(*ssa.Function); ok {
+			var op *ssa.Call
+			allInstrs(lit, func(in ssa.Instruction) {
+				if cl, ok := in.(*ssa.Call); ok && !cl.Call.IsInvoke() {
+					if _, isSig := cl.Call.Value.Type().Underlying().(*types.Signature); isSig && paramIndex(f, resolveValue(cl.Call.Value)) >= 0 {
+						op = cl
+					}
+				}
+			})
+			bad := ""
+			if op != nil {
+				allInstrs(lit, func(in ssa.Instruction) {
+					r, ok := in.(*ssa.Return)
+					if !ok || len(r.Results) == 0 {
+						return
+					}
+					res := r.Results[len(r.Results)-1]
+					derived, direct := false, false
+					for _, l := range sources(res, deriveOpts{through: func(string) bool { return true }}) {
+						if l == ssa.Value(op) {
+							derived = true
+						}
+					}
+					for _, l := range sources(res, deriveOpts{}) {
+						if l == ssa.Value(op) {
+							direct = true
+						}
+					}
+					if derived && !direct {
+						bad = c.ipos(r)
+					}
+				})
+			}
+			c.check(op != nil && bad == "", "O12", fname(f)+"/attempt-returns-the-operations-own-error", c.ipos(do), "the function retried returns what the operation returned, as it is",
+				"the function handed to retry.Do changes the operation's error on the way out ("+bad+"): the caller's retry condition is asked about the changed error, not the one the operation produced — an attempt that fails with an error the caller declared not retriable (its own context.DeadlineExceeded, say) is relabelled, found retriable and attempted again, and a later success makes the call return nil")
+		}
+	}
 	// result through ConvertContextError
 	conv := false
 	allInstrs(f, func(in ssa.Instruction) {
